@@ -221,6 +221,13 @@ def write_replay(prop_id, case, fails, seed, tier):
 
 
 def run_single(prop_id, repo, case):
+    if "fuzz_target" in case:    # an input saved by the coverage-guided stage (function level)
+        from . import fuzzstage
+        out = Outcome()
+        failure = fuzzstage.replay(case, repo)
+        if failure is not None:
+            out.fail(failure[0], failure[1], stage="fuzz", target=case["fuzz_target"])
+        return out
     from . import sandbox, shim
     shim.install(repo)
     sandbox.enter_namespace()
@@ -350,6 +357,25 @@ def main(argv=None):
         for f in r["failures"]:
             violations.append((f["case"], f["fails"], f["origin"]))
 
+    # second search strategy (coverage-guided, function level) where the property has one
+    from . import fuzzstage
+    fz = fuzzstage.run(prop_id, a.tier, seed, a.repo, a.scale)
+    fuzz_ev = None
+    if fz is not None:
+        evaluations += fz["execs"]
+        keys.update("fuzz:" + k for k in fz["labels"])
+        classes.update({"fuzz:execs": fz["execs"]})
+        if fz["note"]:
+            notes.append(fz["note"])
+        fuzz_ev = {"engine": "atheris/libFuzzer", "target": fuzzstage.TARGETS[prop_id],
+                   "executions": fz["execs"], "distinct_labels": len(fz["labels"]),
+                   "label_histogram_top": dict(sorted(fz["labels"].items(), key=lambda kv: -kv[1])[:12])}
+        if fz["failure"] is not None:
+            c = fz["failure"]
+            case = {"fuzz_target": c["fuzz_target"], "input_hex": c["input_hex"]}
+            violations.append((case, [{"clause": c["clause"], "msg": c["msg"],
+                                       "tags": {"stage": "fuzz", "target": c["fuzz_target"]}}], "fuzz"))
+
     for ln in known_lines:
         print(ln)
     seen_buckets = set()
@@ -384,6 +410,7 @@ def main(argv=None):
                 "shards": nshards,
                 "budget_exhausted_before_completion": timed_out,
                 "notes": notes,
+                "coverage_guided_stage": fuzz_ev,
             },
             "assumptions": list(getattr(prop, "ASSUMPTIONS", [])) + [
                 "Linux tmpfs semantics in a private mount namespace; commands run chroot()ed "
